@@ -774,6 +774,35 @@ fn enum_total() -> u64 {
     64 * universe_ops().len() as u64
 }
 
+/// Pairs of operations from a few contents: complete in the thorough tier, a fixed stride of it in
+/// the quick tier.
+fn pair_space() -> u64 {
+    let n = universe_ops().len() as u64;
+    PAIR_CONTENTS.len() as u64 * n * n
+}
+
+const PAIR_CONTENTS: &[&[(&str, &str)]] = &[&[], &[("a", "x")], &[("b", "")], &[("a", "x"), ("c", "y")], &[("C", "y"), ("b", "x"), ("A", "")]];
+
+fn pair_case(tier: Tier, i: u64) -> Option<QCase> {
+    static OPS: std::sync::OnceLock<Vec<QOp>> = std::sync::OnceLock::new();
+    let ops = OPS.get_or_init(universe_ops);
+    let n = ops.len() as u64;
+    let space = PAIR_CONTENTS.len() as u64 * n * n;
+    let idx = match tier {
+        Tier::Thorough => i,
+        // 1/64 of the space, spread by a stride that is coprime to it
+        Tier::Quick => (i.wrapping_mul(1_000_003)) % space,
+    };
+    let content = PAIR_CONTENTS[(idx / (n * n)) as usize];
+    let a = ops[((idx / n) % n) as usize].clone();
+    let b = ops[(idx % n) as usize].clone();
+    Some(QCase {
+        init: content.iter().map(|(k, v)| (k.to_string(), v.to_string())).collect(),
+        ops: vec![a, b],
+        shuffle: vec![(idx % 253) as u8, (idx % 11) as u8 * 23, 77],
+    })
+}
+
 // ---------------------------------------------------------------------------------------------
 // random part
 
@@ -869,6 +898,17 @@ pub fn sections() -> Vec<Box<dyn Section>> {
             required: vec!["mixed-case-key-hits-existing-entry", "removal-or-entry-api"],
             complete: true,
         }),
+        Box::new(Enumerated {
+            name: "pairs-of-operations".into(),
+            total: Box::new(|t: Tier| match t {
+                Tier::Thorough => pair_space(),
+                Tier::Quick => pair_space() / 64,
+            }),
+            make: Box::new(pair_case),
+            oracle: o_case,
+            required: vec!["mixed-case-key-hits-existing-entry", "removal-or-entry-api"],
+            complete: false,
+        }),
         Box::new(Random {
             name: "random-sequences".into(),
             quick: 120_000,
@@ -890,7 +930,8 @@ pub fn prop() -> Prop {
                consumed from both ends in a generated pattern with len() checked at every step, typed accessors, \
                QualifierKey ==/partial_cmp against ASCII text, as_str/Deref/Into<SmallString>). Exhaustive: each of the \
                64 contents over keys {a,b,c} x values {'',x,y} x every operation instance over the key universe {a A b B \
-               c C ab '' ! 'a b' e-acute Kelvin-sign} x {'' x y}. Random: up to 30 operations with arbitrary values. \
+               c C ab '' ! 'a b' e-acute Kelvin-sign} x {'' x y}; all pairs of such operation instances from five contents \
+               (complete in the thorough tier, every 64th in the quick tier). Random: up to 30 operations with arbitrary values. \
                Oracle: after every step content, len, forward and reverse iteration and every return value equal a \
                BTreeMap keyed by the ASCII-lower-cased key; at the end the content re-inserted in a shuffled order with \
                random key case is ==, cmp Equal, hashes alike, and a collection with different content is !=, not Equal \
